@@ -183,6 +183,13 @@ def build_ws(seed):
             pos = max(pos, iv[-1][1])
     iv.sort(key=lambda r: (r[0], r[1], r[2]))
     ivals = GA(pd.DataFrame(iv, columns=["chromosome", "start", "end", "gene", "strand", "val"]), {"sample_id": "ivals"})
+    if seed % 3 == 1:
+        # (set last, so that no library call made while building the workspace can undo it) coverage tables as a filter leaves them: row labels with gaps / not starting at 0 (seeded change C10o let do_fix
+        # sort - and thereby renumber - the caller's own coverage arrays)
+        from vk import gen
+
+        gen.relabel(tcov.data, "gaps")
+        gen.relabel(acov.data, [5, 1])
     return {"ivals": ivals, "cmb_gene": {"gene": max}, "cmb_val": {"val": max, "gene": combiners.join_strings},
             "baits": baits, "access": access, "tcov": tcov, "acov": acov, "ref": ref, "cnr": cnr, "cns": cns, "cns_m": cns_m, "varr": varr,
             "f_none": None, "f_cn": ["cn"], "f_ci_cn": ["ci", "cn"], "f_sem_ampdel": ["sem", "ampdel"], "f_ampdel_cn": ["ampdel", "cn"],
